@@ -168,6 +168,17 @@ func preemptScenariosFor(prop string) []scn {
 		v2(flowParams{Sources: 1, Records: 2, Batch: 1, Dests: 1, AckMenu: []string{"ok", "defer"}, Stop: "stopwait"}, 1, 2)
 	case "C01", "C04":
 		v1(flowParams{Sources: 1, Records: 2, Batch: 1, Dests: 1, AckMenu: []string{"ok", "defer", "nack"}, Stop: ""}, 1, 2)
+		v1(flowParams{Sources: 1, Records: 2, Batch: 1, Dests: 2, AckMenu: okNack, Stop: ""}, 1, 2)
+	case "C02":
+		v1(flowParams{Sources: 1, Records: 2, Batch: 1, Dests: 1, AckMenu: onlyOK, Stop: "stopwait", Bundle: 2}, 1, 2)
+		v2(flowParams{Sources: 1, Records: 2, Batch: 1, Dests: 1, AckMenu: onlyOK, Stop: "stopwait", Bundle: 2}, 1, 2)
+	case "C11":
+		v1(flowParams{Sources: 1, Records: 1, Batch: 1, Dests: 1, AckMenu: onlyOK, Ctl: []string{"stop", "start", "stopwait"}}, 1, 2)
+		v2(flowParams{Sources: 1, Records: 1, Batch: 1, Dests: 1, AckMenu: onlyOK, Ctl: []string{"stop", "start", "stopwait"}}, 1, 2)
+		v1(flowParams{Sources: 1, Records: 1, Batch: 1, Dests: 1, AckMenu: []string{"ok", "err"}, Ctl: []string{"stopwait", "start", "stopwait"}, Retries: 1}, 1, 2)
+	case "C13":
+		v1(flowParams{Sources: 1, Records: 2, Batch: 1, Dests: 1, AckMenu: onlyOK, Procs: []procParam{{ID: "pp"}}, Reconf: []string{"A", "B", "cancelA"}, ProcOpenMenu: []string{"ok"}}, 1, 2)
+		v1(flowParams{Sources: 1, Records: 2, Batch: 1, Dests: 1, AckMenu: onlyOK, Procs: []procParam{{ID: "pp"}}, Reconf: []string{"A"}, ProcOpenMenu: []string{"ok", "err"}, Stop: "stopwait"}, 1, 2)
 	}
 	return out
 }
